@@ -41,7 +41,8 @@ EventOK(e) ==
          /\ IsTime(e.t)
          /\ e.fields = LocalFields(e.t)
          /\ Canon(e.ms[1], e.ms[2], 0) = DAddExact(DMulExact(DInt(e.t[2]), DInt(MsPerDay)), DInt(e.t[3]))
-    [] e.ev = "usetz" -> IsTime(e.res) /\ Inst(e.res) = Inst(e.t)
+    \* the instant is kept and the result is in the zone asked for (its offset at that instant comes from the zone database)
+    [] e.ev = "usetz" -> IsTime(e.res) /\ Inst(e.res) = Inst(e.t) /\ e.res[4] = e.zoff
     [] e.ev = "badtz" -> e.err
     [] e.ev = "adddate" ->
          /\ IsTime(e.res)
